@@ -47,7 +47,9 @@ MINIMUMS = {
               'pairs:alias-redirected': 60, 'pairs:unshared': 60, 'mixed_key_dicts': 120,
               'builds_compared': 1000, 'triples': 300, 'mixed_pairs': 1000,
               'pairs_sharing_objects_by_identity': 200,
-              'late_registered_cases': 100, 'identity_default_pairs': 100, 'variant_pairs': 500},
+              'late_registered_cases': 100, 'identity_default_pairs': 100, 'variant_pairs': 500,
+              'directed_pairs:operands-overlap-at-different-positions': 40,
+              'directed_pairs:default-equal-object-shared-vs-separate': 40},
     'thorough': {'evaluations': 1000},
 }
 
@@ -474,7 +476,58 @@ def run_late(spec, acc):
     acc.obs('late_registered_cases')
 
 
+def directed_pairs(rng, acc):
+  """Two sharing patterns that random rewrites of ONE configuration do not produce:
+  (1) the two operands share sub-objects with EACH OTHER at different positions (overlapping
+      windows over one pool of equal sub-configurations: x = (p0, p1), y = (p1, p2));
+  (2) an explicitly set object that is == to the parameter's default and is used for a second
+      argument as well, against a twin with two separate equal objects."""
+  def w(**kw):
+    return dict(kw)
+  which = rng.choice(['windows', 'default-equal-shared'])
+  if which == 'windows':
+    mk = rng.choice([lambda: fdl.Config(kinds.Base, x=1), lambda: [fdl.Config(kinds.two, x=2)],
+                     lambda: fdl.Partial(kinds.two, y=(1, 2)), lambda: {'k': [3]}])
+    pool = [mk() for _ in range(5)]
+    width = rng.choice([2, 3])
+    i, j = rng.sample(range(0, 5 - width + 1), 2)
+    names = ['a', 'b', 'c'][:width]
+    wrap = rng.choice(['kw', 'list', 'nested'])
+
+    def build_(off):
+      items = pool[off:off + width]
+      if wrap == 'kw':
+        return fdl.Config(kinds.node, **dict(zip(names, items)))
+      if wrap == 'list':
+        return fdl.Config(kinds.two, x=list(items), y=0)
+      return fdl.Config(kinds.two, x=fdl.Config(kinds.node, **dict(zip(names, items))), y=items[0])
+    x, y = build_(i), build_(j)
+    acc.obs('directed_pairs:operands-overlap-at-different-positions')
+    judge_pair(x, y, 'operands-overlap-at-different-positions', None, acc,
+               lambda **kw: dict(kw, case=f'{wrap}: windows {i} and {j} of width {width}'), [])
+    # transitivity through an independent copy
+    z = copy.deepcopy(x)
+    judge_pair(x, z, 'operands-overlap:x~copy', True, acc, lambda **kw: dict(kw), [])
+    judge_pair(z, y, 'operands-overlap:copy~y', None, acc, lambda **kw: dict(kw), [])
+  else:
+    fn, p1, p2 = rng.choice([(kinds.mutdef, 'a', 'd'), (kinds.mutdef, 'b', 'a'), (kinds.mutdef, 'a', 'c')])
+    default = inspect.signature(fn).parameters[p1].default
+    mkeq = lambda: copy.deepcopy(default)     # == to the default, another object
+    shared = mkeq()
+    x = fdl.Config(fn, **{p1: shared, p2: shared})
+    y = fdl.Config(fn, **{p1: mkeq(), p2: mkeq()})
+    if rng.random() < 0.5:
+      x, y = fdl.Config(kinds.two, x=x, y=1), fdl.Config(kinds.two, x=y, y=1)
+    acc.obs('directed_pairs:default-equal-object-shared-vs-separate')
+    judge_pair(x, y, 'default-equal-object-shared-vs-separate', None, acc,
+               lambda **kw: dict(kw, case=f'{fn.__name__}({p1}=L, {p2}=L) vs separate equal lists'), [])
+    judge_pair(y, x, 'default-equal-object-separate-vs-shared', None, acc,
+               lambda **kw: dict(kw, case=f'{fn.__name__}'), [])
+
+
 def run_case(rng, acc):
+  if rng.random() < 0.12:
+    directed_pairs(rng, acc)
   if rng.random() < 0.1:
     # a comparison that RAISES from a leaf (array-style ==, outside the property's leaves): it
     # must leave nothing behind that changes the answers of later comparisons in this thread
